@@ -1,6 +1,7 @@
 package wire
 
 import (
+	"fmt"
 	"math"
 
 	"verif/harness/mon"
@@ -255,4 +256,59 @@ func GenDataSet(g *mon.RNG, t *Template, k int, o GenOpts, maxPad int) Set {
 func SetLen(s *Set) int {
 	_, b := s.body()
 	return 4 + len(b)
+}
+
+// MinimalVariant returns a copy of t (same id) that differs from it as little as a redefinition can: one field's
+// length (a reduced-size encoding taken up or given up), two neighbouring fields swapped, one field more at the end,
+// or the last field dropped. The element ids - and for most variants their order - stay what they were, so anything
+// that recognises "the same template again" by less than the full definition takes it for a refresh.
+func MinimalVariant(g *mon.RNG, t *Template, o GenOpts) (*Template, string) {
+	n := *t
+	n.Scope = append([]Field{}, t.Scope...)
+	n.Fields = append([]Field{}, t.Fields...)
+	at := func(i int) *Field {
+		if i < len(n.Scope) {
+			return &n.Scope[i]
+		}
+		return &n.Fields[i-len(n.Scope)]
+	}
+	total := len(n.Scope) + len(n.Fields)
+	for try := 0; try < 12; try++ {
+		switch g.Intn(4) {
+		case 0:
+			i := g.Intn(total)
+			f := at(i)
+			if sz := TypeSize(f.Type); isInt(f.Type) && sz >= 2 && f.Len != 65535 {
+				nl := uint16(g.Range(1, sz))
+				if nl != f.Len {
+					old := f.Len
+					f.Len = nl
+					return &n, fmt.Sprintf("length of field %d %d -> %d", i, old, nl)
+				}
+			}
+		case 1:
+			if len(n.Fields) >= 2 {
+				i := g.Intn(len(n.Fields) - 1)
+				if n.Fields[i] != n.Fields[i+1] {
+					n.Fields[i], n.Fields[i+1] = n.Fields[i+1], n.Fields[i]
+					return &n, fmt.Sprintf("option/plain fields %d and %d swapped", i, i+1)
+				}
+			}
+		case 2:
+			if total < 40 {
+				n.Fields = append(n.Fields, GenField(g, o))
+				return &n, "one more field at the end"
+			}
+		default:
+			if len(n.Fields) >= 2 {
+				n.Fields = n.Fields[:len(n.Fields)-1]
+				if n.MinRecLen() > 0 {
+					return &n, "last field dropped"
+				}
+				n.Fields = append([]Field{}, t.Fields...)
+			}
+		}
+	}
+	n.Fields = append(n.Fields, GenField(g, o))
+	return &n, "one more field at the end"
 }
